@@ -48,7 +48,7 @@ def main(tier):
             else:
                 form = "plain"
         elif form == "include":
-            nm, blocks, files = rnd.choice(c08.forms(d, tx, rnd)[:3])
+            nm, blocks, files = rnd.choice(c08.forms(d, tx, rnd)[:3])[:3]
         try:
             text, _, spans = apidoc.render(blocks)
         except Exception:
